@@ -2,6 +2,7 @@ package main
 
 import (
 	"bytes"
+	"strconv"
 	"context"
 	"encoding/json"
 	"fmt"
@@ -12,6 +13,8 @@ import (
 	"strings"
 	"time"
 )
+
+var fkModelRe = regexp.MustCompile(`\(define-fun fk_([A-Za-z0-9_]+)![0-9]+ \(\) \(_ BitVec 64\)\s+#b([01]{64})\)`)
 
 // ReplaySpec: which Go test (kept under /verif/replay, injected with `go test -overlay`) replays an obligation.
 type ReplaySpec struct {
@@ -35,7 +38,7 @@ func loadReplaySpecs() []ReplaySpec {
 
 // runReplay runs the replay test against /repo's working tree; returns its output and whether the
 // violation manifested (the test prints REPLAY-CONFIRMED).
-func runReplay(spec ReplaySpec) (string, bool) {
+func runReplay(spec ReplaySpec, model string) (string, bool) {
 	scratch := filepath.Join(verifDir(), "run", fmt.Sprintf("replay-%d", os.Getpid()))
 	os.MkdirAll(scratch, 0o755)
 	defer os.RemoveAll(scratch)
@@ -50,6 +53,14 @@ func runReplay(spec ReplaySpec) (string, bool) {
 	cmd := exec.CommandContext(ctx, "go", "test", "-overlay", ovf, "-vet=off", "-timeout", "240s", "-count=1", "-v", "-run", spec.Run, spec.Pkg)
 	cmd.Dir = repoDir()
 	cmd.Env = append(os.Environ(), "GOFLAGS=-mod=mod", "GOPROXY=off", "GOSUMDB=off", "GOTOOLCHAIN=local")
+	// values of the universally quantified key variables in the solver's counterexample
+	var used []string
+	for _, m := range fkModelRe.FindAllStringSubmatch(model, -1) {
+		if v, err := strconv.ParseUint(m[2], 2, 64); err == nil {
+			cmd.Env = append(cmd.Env, fmt.Sprintf("VERIF_FK_%s=%d", m[1], v))
+			used = append(used, fmt.Sprintf("%s=%d", m[1], v))
+		}
+	}
 	var out bytes.Buffer
 	cmd.Stdout = &out
 	cmd.Stderr = &out
@@ -61,6 +72,9 @@ func runReplay(spec ReplaySpec) (string, bool) {
 		}
 	}
 	text := "$ go test -overlay <ov.json> -vet=off -run '" + spec.Run + "' " + spec.Pkg + "\n" + strings.Join(keep, "\n")
+	if len(used) > 0 {
+		text = "counterexample values passed to the replay: " + strings.Join(used, " ") + "\n" + text
+	}
 	return text, strings.Contains(out.String(), "REPLAY-CONFIRMED")
 }
 
@@ -71,7 +85,43 @@ func runReplayAdapter(id string, o *Obligation, cfg *PropConfig) (string, bool) 
 		if err != nil || !re.MatchString(name) {
 			continue
 		}
-		return runReplay(spec)
+		return runReplay(spec, o.Model)
 	}
 	return "", false
+}
+
+// runBounded runs a bounded stand-in test; ok iff it printed BOUNDED-OK and no BOUNDED-FAIL.
+func runBounded(bc BoundedCheck, opts checkOpts) (string, bool) {
+	scratch := filepath.Join(verifDir(), "run", fmt.Sprintf("bounded-%d", os.Getpid()))
+	os.MkdirAll(scratch, 0o755)
+	defer os.RemoveAll(scratch)
+	target := filepath.Join(repoDir(), strings.TrimPrefix(bc.Pkg, "./"), "zz_verif_bounded_test.go")
+	src := filepath.Join(verifDir(), "bounded", bc.File)
+	ov := map[string]map[string]string{"Replace": {target: src}}
+	for k, v := range opts.overlay {
+		// a mutant under test: write it to a scratch file so that go test sees it too
+		mf := filepath.Join(scratch, fmt.Sprintf("m%d.go", len(ov["Replace"])))
+		os.WriteFile(mf, v, 0o644)
+		ov["Replace"][k] = mf
+	}
+	data, _ := json.Marshal(ov)
+	ovf := filepath.Join(scratch, "ov.json")
+	os.WriteFile(ovf, data, 0o644)
+	ctx, cancel := context.WithTimeout(context.Background(), 900*time.Second)
+	defer cancel()
+	cmd := exec.CommandContext(ctx, "go", "test", "-overlay", ovf, "-vet=off", "-timeout", "800s", "-count=1", "-v", "-run", bc.Run, bc.Pkg)
+	cmd.Dir = repoDir()
+	cmd.Env = append(os.Environ(), "GOFLAGS=-mod=mod", "GOPROXY=off", "GOSUMDB=off", "GOTOOLCHAIN=local", "VERIF_TIER="+opts.tier, fmt.Sprintf("VERIF_SEED=%d", opts.seed))
+	var out bytes.Buffer
+	cmd.Stdout = &out
+	cmd.Stderr = &out
+	_ = cmd.Run()
+	var keep []string
+	for _, ln := range strings.Split(out.String(), "\n") {
+		if strings.Contains(ln, "BOUNDED-") || strings.HasPrefix(ln, "FAIL") || strings.HasPrefix(ln, "ok ") || strings.HasPrefix(ln, "panic:") || strings.Contains(ln, "cannot") {
+			keep = append(keep, trunc(ln, 600))
+		}
+	}
+	text := strings.Join(keep, "\n")
+	return text, strings.Contains(text, "BOUNDED-OK") && !strings.Contains(text, "BOUNDED-FAIL") && !strings.Contains(text, "FAIL")
 }
